@@ -33,6 +33,43 @@ class Prover:
         self.trace = []
         self._memo = {}
         self._les = None
+        # congruence: equalities between non-arithmetic atoms (pointers loaded at different times,
+        # `a == b` edges) are applied as rewrites larger-term -> smaller-term
+        self.rw = {}
+        for f in self.facts:
+            if f[0] == 'eq' and len(f) == 3:
+                a, b = f[1], f[2]
+                if self._atomic(a) and self._atomic(b) and a != b:
+                    big, small = (a, b) if self._rank(a) > self._rank(b) else (b, a)
+                    self.rw[big] = small
+        if self.rw:
+            # close the map (a->b, b->c  =>  a->c), then rewrite the facts themselves
+            for _ in range(4):
+                for k in list(self.rw):
+                    v = self.rw[k]
+                    if v in self.rw and self.rw[v] != k:
+                        self.rw[k] = self.rw[v]
+            self.facts = {tuple(subst(x, self.rw) if isinstance(x, tuple) else x for x in f) for f in self.facts}
+            self.ax = {tuple(subst(x, self.rw) if isinstance(x, tuple) else x for x in f) for f in self.ax}
+
+    @staticmethod
+    def _rank(t):
+        # representatives: loads of footer fields first (the J lemmas are keyed on them), then
+        # footer pointers, then everything else by size
+        r = 2
+        if t[0] == 'load' and t[1][0] == 'fld':
+            if t[1][2].startswith('ChunkFooter.'):
+                r = 0
+            elif t[1][2].endswith('.current_chunk_footer'):
+                r = 1
+        return (r, len(repr(t)), repr(t))
+
+    @staticmethod
+    def _atomic(t):
+        return t[0] in ('load', 'param', 'opaque', 'call', 'addr') or (t[0] == 'app' and t[1] in ('payload', 'vproj', 'proj', 'iter_any', 'galloc'))
+
+    def canon(self, t):
+        return subst(t, self.rw) if self.rw else t
 
     # ------------------------------------------------------------------ footers
     def footer_of_field_load(self, t, field):
@@ -91,6 +128,9 @@ class Prover:
 
     # ------------------------------------------------------------------ aligned
     def aligned(self, t, d, depth=0):
+        if depth == 0:
+            t = self.norm(self.canon(t))
+            d = self.canon(d)
         key = ('al', t, d)
         if key in self._memo:
             return self._memo[key]
@@ -173,13 +213,14 @@ class Prover:
 
     # ------------------------------------------------------------------ le / lt / eq
     def le(self, a, b, depth=0):
-        return self.nonneg(self.diff(b, a), depth)
+        return self.nonneg(self.diff(self.canon(b), self.canon(a)), depth)
 
     def lt(self, a, b, depth=0):
-        d, c = self.diff(b, a)
+        d, c = self.diff(self.canon(b), self.canon(a))
         return self.nonneg((d, c - 1), depth)
 
     def eq(self, a, b, depth=0):
+        a, b = self.canon(a), self.canon(b)
         if a == b:
             return True
         d, c = self.diff(a, b)
@@ -277,7 +318,7 @@ class Prover:
                 for lb in self.lower_bounds(k):
                     nd = dict(d)
                     del nd[k]
-                    ld, lc = lin(lb)
+                    ld, lc = lin(self.norm(lb))
                     for x, xv in ld.items():
                         nd[x] = nd.get(x, 0) + v * xv
                         if nd[x] == 0:
@@ -305,7 +346,7 @@ class Prover:
             for ub in self.upper_bounds(k):
                 nd = dict(d)
                 del nd[k]
-                ud, uc = lin(ub)
+                ud, uc = lin(self.norm(ub))
                 for x, xv in ud.items():
                     nd[x] = nd.get(x, 0) + v * xv
                     if nd[x] == 0:
@@ -319,7 +360,7 @@ class Prover:
             for lb in self.lower_bounds(k):
                 nd = dict(d)
                 del nd[k]
-                ld, lc = lin(lb)
+                ld, lc = lin(self.norm(lb))
                 for x, xv in ld.items():
                     nd[x] = nd.get(x, 0) + v * xv
                     if nd[x] == 0:
@@ -404,7 +445,9 @@ class Prover:
         if k[0] == 'load' and self.use_J:
             fp = self.footer_of_field_load(k, 'ptr')
             if fp:
-                out.append(('load', ('fld', ('deref', fp[0]), 'ChunkFooter.data'), fp[1]))   # J2
+                out.append(('load', ('fld', ('deref', fp[0]), 'ChunkFooter.data'), 0))       # J2 (data is immutable: epoch 0)
+                if fp[1] != 0:
+                    out.append(('load', ('fld', ('deref', fp[0]), 'ChunkFooter.data'), fp[1]))
         if self.use_J and self.is_footer_ptr(k):
             # F >= F.ptr at any epoch is not expressible without the epoch; skip
             pass
